@@ -4,6 +4,7 @@ import (
 	"context"
 	"sort"
 	"sync"
+	"time"
 
 	"github.com/volatiletech/authboss/v3"
 )
@@ -16,10 +17,11 @@ type Storer struct {
 	users  map[string]*User
 	tokens map[string][]string
 
-	OneTime         bool     // hand out the TOTP replay-protecting user type
-	ProfileKeys     []string // the application's declared profile fields
-	PersistAll      bool     // PutArbitrary stores everything it is handed
-	OAuth2Confirmed bool     // new OAuth2 users are created confirmed (as authboss-sample does)
+	OneTime         bool           // hand out the TOTP replay-protecting user type
+	ProfileKeys     []string       // the application's declared profile fields
+	PersistAll      bool           // PutArbitrary stores everything it is handed
+	TimeLoc         *time.Location // Location of the timestamps handed out by Load* (nil: as stored)
+	OAuth2Confirmed bool           // new OAuth2 users are created confirmed (as authboss-sample does)
 
 	w *World
 	// Hook, if set, is called at the start of every storer operation (scheduling jitter and
@@ -258,6 +260,15 @@ func (s *Storer) Load(ctx context.Context, key string) (authboss.User, error) {
 func (s *Storer) prep(u *User) *User {
 	u.profileKeys = s.ProfileKeys
 	u.persistAll = s.PersistAll
+	if s.TimeLoc != nil {
+		// like a database driver that hands timestamps back in the connection's zone: same instants,
+		// another Location
+		for _, t := range []*time.Time{&u.LastAttempt, &u.Locked, &u.RecoverExpiry, &u.OAuth2Expiry} {
+			if !t.IsZero() {
+				*t = t.In(s.TimeLoc)
+			}
+		}
+	}
 	if s.w != nil {
 		u.onArbitrary = s.w.noteArbitrary
 	}
